@@ -543,8 +543,12 @@ def unevaluated_shapes(qual: str, tier: str) -> list:
         for n, a in zip(names, alphas):
             for v in a[1:]:
                 shapes.append({**base, n: v})
-        for k in range(1, max(len(a) for a in alphas)):
-            shapes.append({n: a[min(k, len(a) - 1)] for n, a in zip(names, alphas)})
+        diag_alphas = [
+            [v for v in a if v[0] == "int"] if f.sort == "int" else a for f, a in zip(i.fields, alphas)
+        ]
+        for k in range(1, max(len(a) for a in diag_alphas)):
+            shapes.append({n: a[k % len(a)] if f.sort == "int" else a[min(k, len(a) - 1)]
+                           for n, f, a in zip(names, i.fields, diag_alphas)})
         quick_alphas = alphas if tier == "quick" else [alphabet(f, k, "quick") for k, f in enumerate(i.fields)]
         nested_idx = {
             n: [v for v in a if v[0] in {"inst", "new"}] for n, a in zip(names, quick_alphas)
@@ -570,11 +574,25 @@ def unevaluated_shapes(qual: str, tier: str) -> list:
     out, seen = [], set()
     for s in shapes:
         d = ["inst", qual, s]
+        if _symbolic_int_with_nested_scalar(i, s):
+            continue
         k = json.dumps(d, sort_keys=True)
         if k not in seen:
             seen.add(k)
             out.append(d)
     return out
+
+
+def _symbolic_int_with_nested_scalar(i: Info, shape: dict) -> bool:
+    """A symbolic angular momentum is only combined with symbol / number / compound
+    arguments: the symbolic-L Blatt-Weisskopf form is defined for z >= 0 (TR-029), and the
+    sign of a nested instance on the lattice is not under control."""
+    symbolic = any(
+        f.sort == "int" and shape[f.name][0] in {"sym", "cmp"} for f in i.fields
+    )
+    if not symbolic:
+        return False
+    return any(f.sort == "scalar" and shape[f.name][0] in {"inst", "new"} for f in i.fields)
 
 
 def plain_shapes(qual: str, tier: str) -> list:
@@ -729,6 +747,17 @@ def canon(obj):
     return [qualname(cls), [canon(a) for a in obj.args]]
 
 
+def undummy(expr):
+    """Rename Dummy symbols canonically (every unfolding creates fresh Dummies)."""
+    import sympy as sp  # noqa: PLC0415
+
+    seen = {}
+    for node in sp.preorder_traversal(expr):
+        if isinstance(node, sp.Dummy) and node not in seen:
+            seen[node] = sp.Symbol(f"_dummy{len(seen)}", **node.assumptions0)
+    return expr.xreplace(seen) if seen else expr
+
+
 def digest(obj) -> str:
     return hashlib.sha256(json.dumps(canon(obj)).encode()).hexdigest()[:20]
 
@@ -809,10 +838,12 @@ def scalar_value(sym, j: int, seed: int) -> Fraction:
         if name.startswith(("n", "shape", "size")):
             return Fraction(N_EVENTS)
         return Fraction(1 + h % 2)
-    if name.startswith(("s", "sigma")):
+    if name.startswith(("s", "sigma")) and not name.startswith(("shape", "size", "sin")):
         return Fraction(6) + shift * 2
+    if name.startswith(("mass0", "m0", "m_0")):
+        return Fraction(2) + shift / 2
     if name.startswith("m"):
-        return Fraction(1, 4) + shift / 2
+        return Fraction(1, 8) + shift / 4
     if name.startswith(("b", "beta")):
         return Fraction(1, 8) + shift / 4
     return Fraction(1, 2) + shift
@@ -843,12 +874,21 @@ def np_values(exprs: list, seed: int, cse: bool = False, events=None, real_input
     import sympy as sp  # noqa: PLC0415
 
     syms, arrs = _symbols_of(exprs)
+    names = [s.name for s in syms]
+    if len(set(names)) < len(names):  # same name, different assumptions: rename for the code generator
+        ren = {s: sp.Symbol(f"{s.name}__{k}", **s.assumptions0) for k, s in enumerate(syms) if names.count(s.name) > 1}
+        exprs = [e.xreplace(ren) for e in exprs]
+        values = {ren.get(s, s): s for s in syms}
+        syms = [ren.get(s, s) for s in syms]
+    else:
+        values = {s: s for s in syms}
     args = []
     for s in syms:
-        if is_int_symbol(s):
-            args.append(int(scalar_value(s, 0, seed)))
+        s_orig = values[s]
+        if is_int_symbol(s_orig):
+            args.append(int(scalar_value(s_orig, 0, seed)))
         else:
-            vals = [float(scalar_value(s, j, seed)) for j in range(N_EVENTS)]
+            vals = [float(scalar_value(s_orig, j, seed)) for j in range(N_EVENTS)]
             args.append(np.array(vals) if real_input else np.array(vals, dtype=complex))
     for a in arrs:
         v = array_value(a, seed)
@@ -933,6 +973,21 @@ def numeric_compare(x, y, seed: int):
     rx, ry = np_values([x], seed), np_values([y], seed)
     if rx[0] == "ok" and ry[0] == "ok":
         v, n = arrays_close(rx[1][0], ry[1][0])
+        if v == "differ":
+            # signed zeros of complex input on a branch cut: real-valued input decides
+            qx, qy = np_values([x], seed, real_input=True), np_values([y], seed, real_input=True)
+            if qx[0] == "ok" and qy[0] == "ok":
+                import numpy as np  # noqa: PLC0415
+
+                try:
+                    a, b = np.broadcast_arrays(np.asarray(qx[1][0], dtype=complex), np.asarray(qy[1][0], dtype=complex))
+                    fin = np.isfinite(a) & np.isfinite(b)
+                    if not np.any(fin):
+                        return "undefined", "numpy", "only defined off the real domain"
+                    if arrays_close(a[fin], b[fin])[0] == "equal":
+                        return "equal", "numpy-real-input", f"{int(np.sum(fin))} values"
+                except ValueError:
+                    pass
         return v, "numpy", f"{rx[1][0]} vs {ry[1][0]}" if v == "differ" else f"{n} values"
     if rx[0] == "error" and ry[0] == "error":
         return "undefined", "numpy", f"both sides not evaluable: {rx[1]}"
